@@ -407,4 +407,15 @@ theorem callView_foldl_cancel (l : List (Nat × Nat)) (c : Cause) (s : St) :
 @[simp] theorem settleWaiters_clock (s : St) : (settleWaiters s).clock = s.clock := by
   unfold settleWaiters; split <;> rfl
 
+@[simp] theorem settleDisp_metas (s : St) : (settleDisp s).metas = s.metas := by
+  unfold settleDisp; split
+  · split
+    · split <;> rfl
+    · rfl
+  · rfl
+@[simp] theorem settle_metas (s : St) : (settle s).metas = s.metas := by simp [settle]
+@[simp] theorem tail_closing (s : St) : (tail s).closing = s.closing := by
+  unfold tail finish closeTransport; repeat' split
+  all_goals rfl
+
 end Conn
